@@ -47,6 +47,11 @@ struct Cx<'tcx> {
 
 impl<'tcx> Cx<'tcx> {
     fn path(&self, did: DefId) -> String {
+        let kn = self.tcx.crate_name(did.krate).to_string();
+        if !did.is_local() && kn.starts_with("saphyr") {
+            // canonical definition path, not the re-export a downstream crate sees
+            return ty::print::with_no_visible_paths!(ty::print::with_no_trimmed_paths!(self.tcx.def_path_str(did)));
+        }
         let p = ty::print::with_no_trimmed_paths!(self.tcx.def_path_str(did));
         if did.is_local() {
             format!("{}::{}", self.tcx.crate_name(did.krate), p)
